@@ -209,6 +209,36 @@ impl<Meta> Archive<Meta> {
     }
 }
 
+/// # Verification hooks (only built with `--cfg routinator_verif`)
+///
+#[cfg(routinator_verif)]
+impl<Meta> Archive<Meta> {
+    /// Like `create_with_file` but with a given hash key and bucket count.
+    ///
+    /// Lets a test harness choose names that collide deterministically.
+    pub fn verif_create_with_file(
+        mut file: fs::File, hash_key: [u8; 16], bucket_count: usize,
+    ) -> Result<Self, ArchiveError> {
+        file.set_len(0)?;
+        let meta = ArchiveMeta { hash_key, bucket_count };
+        file.write_all(&FILE_MAGIC)?;
+        meta.write(&mut file)?;
+        let len = file.stream_position()? + Self::index_size(&meta);
+        file.set_len(len)?;
+
+        Ok(Self {
+            file: Storage::new(file, true)?,
+            meta,
+            marker: PhantomData,
+        })
+    }
+
+    /// The bucket index the archive computes for `name`.
+    pub fn verif_hash_name(&self, name: &[u8]) -> u64 {
+        self.meta.hash_name(name)
+    }
+}
+
 /// # Access to specific objects
 ///
 impl<Meta: ObjectMeta> Archive<Meta> {
